@@ -282,6 +282,18 @@ def run(chk):
                 fails.append({"what": "geometry-mark-behind-multiple-subst", "detail": line[:1500],
                               "request": line.split("req=[")[1].split("]")[0] if "req=[" in line else "",
                               "font": "c07 multmark (ccmp: x -> P Q; mark: MarkToLigature {M; L} and MarkToBase {M; P[, Q], b}, order and coverage in the line)"})
+        # ---- kerx and GPOS in one font: which of the two positions the text
+        rc, out, err = C.run_rbv(binp, ["c07", "kerx-probe"], timeout=120)
+        m = re.search(r"kerx-probe-summary cases=(\d+) bad=(\d+)", out)
+        if m:
+            chk.add_eval(int(m.group(1)), int(m.group(1)))
+            chk.note("kerx_and_gpos_probe", {"cases": int(m.group(1)), "bad": int(m.group(2))})
+        else:
+            dis.append({"what": "kerx-probe produced no summary", "stderr": err[-300:]})
+        for line in out.splitlines():
+            if line.startswith("kerx-probe-fail"):
+                fails.append({"what": "positioning-source-differs", "detail": line[:800], "request": "glyphs 1 2 1 ltr",
+                              "font": "c07 kerx-probe (kerx format 0 pair (1,2) = -101, GPOS kern pair (1,2) = -300 on the first glyph, GDEF classifying .notdef only; with / without a GSUB)"})
         # ---- kern on/off on corpus fonts
         rc, out, err = C.run_rbv(binp, ["c07", "kernoff-corpus"], timeout=600)
         for line in out.splitlines():
